@@ -10,6 +10,7 @@
 #include "perturb.h"
 
 #include <aws/common/common.h>
+#include <aws/common/date_time.h>
 #include <aws/common/log_channel.h>
 #include <aws/common/log_formatter.h>
 #include <aws/common/log_writer.h>
@@ -131,6 +132,7 @@ static struct {
     int phase_level[4];
     pthread_barrier_t barrier;
     struct aws_logger logger;
+    enum aws_date_format date_format;
 } T;
 
 static char *make_payload(int sender, int n, size_t plen, uint64_t seed) {
@@ -273,10 +275,25 @@ static bool check_line(const uint8_t *line, size_t len, size_t rec_idx, int *out
     if (!q) {
         goto bad;
     }
-    /* ISO 8601 timestamp: YYYY-MM-DDTHH:MM:SSZ */
+    /* timestamp in the formatter's date format: ISO 8601 YYYY-MM-DDTHH:MM:SSZ, ISO 8601 basic YYYYMMDDTHHMMSSZ, or
+     * RFC 822 'Www, DD Mon YYYY HH:MM:SS GMT' */
     size_t tsl = (size_t)(q - p);
-    if (tsl != 20 || p[4] != '-' || p[7] != '-' || p[10] != 'T' || p[13] != ':' || p[16] != ':' || p[19] != 'Z') {
-        mon_violation("C14:line-format:timestamp", "record %zu: timestamp field '%.*s' is not YYYY-MM-DDTHH:MM:SSZ", rec_idx, (int)tsl, p);
+    bool ts_ok;
+    switch (T.date_format) {
+        case AWS_DATE_FORMAT_ISO_8601_BASIC:
+            ts_ok = tsl == 16 && p[8] == 'T' && p[15] == 'Z';
+            break;
+        case AWS_DATE_FORMAT_RFC822:
+            ts_ok = tsl == 29 && p[3] == ',' && p[4] == ' ' && p[7] == ' ' && p[11] == ' ' && p[16] == ' ' && p[19] == ':' && p[22] == ':' &&
+                    !memcmp(p + 25, " GMT", 4);
+            break;
+        default:
+            ts_ok = tsl == 20 && p[4] == '-' && p[7] == '-' && p[10] == 'T' && p[13] == ':' && p[16] == ':' && p[19] == 'Z';
+            break;
+    }
+    if (!ts_ok) {
+        mon_violation("C14:line-format:timestamp", "record %zu: timestamp field '%.*s' does not have the shape of date format %d", rec_idx, (int)tsl, p,
+                      (int)T.date_format);
         return false;
     }
     p = q + 1;
@@ -410,7 +427,10 @@ static void thr_case(void) {
 
     struct aws_log_writer writer = {.vtable = &s_writer_vtable, .allocator = alloc, .impl = NULL};
     struct aws_log_formatter formatter;
-    struct aws_log_formatter_standard_options fopt = {.date_format = AWS_DATE_FORMAT_ISO_8601};
+    static const enum aws_date_format k_formats[] = {AWS_DATE_FORMAT_ISO_8601, AWS_DATE_FORMAT_ISO_8601_BASIC, AWS_DATE_FORMAT_RFC822};
+    T.date_format = k_formats[mon_below(r, 3)];
+    mon_fp((uint64_t)T.date_format);
+    struct aws_log_formatter_standard_options fopt = {.date_format = T.date_format};
     struct aws_log_channel channel;
     int rc = aws_log_formatter_init_default(&formatter, alloc, &fopt);
     rc |= background ? aws_log_channel_init_background(&channel, alloc, &writer) : aws_log_channel_init_foreground(&channel, alloc, &writer);
